@@ -843,6 +843,7 @@ class MonC13(Monitor):
             except Exception:  # noqa: BLE001
                 return fails
             in_eom = {n: bool(seq.is_in_eom_mode(n)) for n in names}
+            fails += self.refused_variable_calls(dev, rng)
             for _ in range(14):
                 n = rng.choice(names)
                 kind = rng.choice(["enable", "disable", "add", "add_eom", "modify"])
@@ -870,6 +871,51 @@ class MonC13(Monitor):
                     in_eom[n] = True
                 elif ok and kind == "disable":
                     in_eom[n] = False
+        return fails
+
+
+    def refused_variable_calls(self, dev, rng):
+        """A call that is REFUSED for the mode the sequence is in (RuntimeError kinds: EOM mode mismatch,
+        measured) does not make the sequence parametrized, even when it carries one of its own variables:
+        the mode is a function of the accepted calls only."""
+        from pulser import Sequence as _Seq
+
+        fails = []
+        try:
+            seq = _Seq(dev.register, dev.device)
+            seq.declare_channel("e0", dev.chan_ids[0])
+            seq.declare_channel("n2", dev.chan_ids[2])
+            var = seq.declare_variable("rv", dtype=int)
+        except Exception:  # noqa: BLE001
+            return fails
+        kind = rng.choice(["eom_pulse_outside", "add_inside", "enable_twice", "after_measure"])
+        try:
+            if kind == "eom_pulse_outside":
+                call = lambda: seq.add_eom_pulse("e0", var, 0.0)
+            elif kind == "add_inside":
+                seq.enable_eom_mode("e0", 1.0, 0.0)
+                call = lambda: seq.add(Pulse.ConstantPulse(var, 1.0, 0.0, 0.0), "e0")
+            elif kind == "enable_twice":
+                seq.enable_eom_mode("e0", 1.0, 0.0)
+                call = lambda: seq.enable_eom_mode("e0", var, 0.0)
+            else:
+                seq.add(Pulse.ConstantPulse(100, 1.0, 0.0, 0.0), "n2")
+                seq.measure("ground-rydberg")
+                call = lambda: seq.delay(var, "n2")
+        except Exception:  # noqa: BLE001
+            return fails
+        before = bool(seq.is_parametrized())
+        try:
+            call()
+            refused = False
+        except Exception:  # noqa: BLE001
+            refused = True
+        if refused and bool(seq.is_parametrized()) != before:
+            fails.append(self.F("refused-call-parametrizes",
+                                f"a refused call carrying an own variable ({kind}) turned the sequence parametrized",
+                                op=kind))
+        if not refused:
+            fails.append(self.F("mode-call-accepted-with-variable", f"{kind} was accepted", op=kind))
         return fails
 
 
